@@ -8,6 +8,7 @@ CONSTANTS
   PageSizeRule = "le0"
   GuardLocation = TRUE
   GuardAlloc = TRUE
+  StrictRangeTooLong = FALSE
   PageSizes <- PS1
   MaxResp = 3
   MaxCalls = 4
